@@ -322,6 +322,29 @@ pub fn run(ctx: &Ctx, replay: Option<&J>) -> i32 {
             }
         }
     }
+    // ---- size ladder: the broadcasting law on long lists (sizes around powers of two and ten)
+    {
+        let sizes: &[usize] = if thorough { &[64, 100, 255, 256, 257, 1000, 1024, 1025, 4097] } else { &[257, 1025] };
+        let seeds: Vec<Vec<RV>> = words(&reduced, 2).into_iter().filter(|w| !w.is_empty()).step_by(if thorough { 1 } else { 3 }).collect();
+        for (oi, (op, _)) in OPS.iter().enumerate() {
+            for w in &seeds {
+                for &n in sizes {
+                    let a = extend_periodic(w, n);
+                    // a second list of the same length: the same word rotated by one
+                    let mut b = a.clone();
+                    b.rotate_left(1);
+                    let sc = RV::Num(2.0);
+                    let ss: Vec<RV> = a.iter().map(|_| sc.clone()).collect();
+                    cases.push(Case { src: format!("{} {} {}", RV::List(a.clone()).src(), op, sc.src()), kind: "list-scalar", expected: mk_expected(oi, &a, &ss) });
+                    cases.push(Case { src: format!("{} {} {}", sc.src(), op, RV::List(a.clone()).src()), kind: "scalar-list", expected: mk_expected(oi, &ss, &a) });
+                    cases.push(Case { src: format!("{} {} {}", RV::List(a.clone()).src(), op, RV::List(b.clone()).src()), kind: "list-list", expected: mk_expected(oi, &a, &b) });
+                    // one element short: must fail whatever the elements are
+                    cases.push(Case { src: format!("{} {} {}", RV::List(a.clone()).src(), op, RV::List(b[1..].to_vec()).src()), kind: "length-mismatch", expected: Exp::Fail });
+                }
+                flush(&mut cases, false);
+            }
+        }
+    }
     // ---- string-list family: every list of length <= 2 over the string alphabet against every string
     // scalar and every equal-length list, for the operators defined on strings
     {
@@ -479,7 +502,7 @@ pub fn run(ctx: &Ctx, replay: Option<&J>) -> i32 {
     finish(
         ctx,
         "exploration",
-        "17 broadcasting operators x {scalar-scalar over pool^2; list-scalar and scalar-list for every list of length <= 2 over the pool and periodic extensions to 3..8; list-list for all equal-length pairs of those; every mismatched length pair 0..8} plus the six dot operators on lists; every operator on aliased operands (one variable on both sides, as corresponding elements, as scalar and element) over 11 values incl. NaN-carrying lists and records; expected = independent scalar model applied element by element; distinct = distinct source expressions",
+        "17 broadcasting operators x {scalar-scalar over pool^2; list-scalar and scalar-list for every list of length <= 2 over the pool and periodic extensions to 3..8; list-list for all equal-length pairs of those; every mismatched length pair 0..8; a size ladder of periodic lists (257, 1025; thorough 64..4097) for list-scalar, scalar-list, list-list and one-short mismatches} plus the six dot operators on lists; every operator on aliased operands (one variable on both sides, as corresponding elements, as scalar and element) over 11 values incl. NaN-carrying lists and records; expected = independent scalar model applied element by element; distinct = distinct source expressions",
         true,
         None,
     )
